@@ -320,7 +320,8 @@ def pattern_line(c):
 
 def behaviour_corpus(chk):
     rng = chk.rng
-    pats = ['%{if-debug}D%{endif}%{if-info}I%{endif}%{if-warning}W%{endif}%{if-critical}C%{endif}%{if-fatal}F%{endif}|%{type}|%{message}',
+    pats = ['[%{message:*^7}]|[%{message:*^8}]|[%{type:_^9}]', '[%{message:*^6!}] [%{category:-^11}]',
+            '%{if-debug}D%{endif}%{if-info}I%{endif}%{if-warning}W%{endif}%{if-critical}C%{endif}%{if-fatal}F%{endif}|%{type}|%{message}',
             '%{if-warning}warn: %{endif}%{message}', '[%{type:>8}] %{category}: %{message}', '%{message:*^12!} <%{user?}> %{line}',
             '%{shortfile}:%{line} %{function} %{message:>6}', '%{if-critical}%{file}%{endif}%{if-debug}dbg%{endif} %{message:<4!}',
             '%{type:.3} %{u?1,1}x%{message}', '%% %{message} %{if-info}i%{endif}%{if-nonsense}n%{endif}']
@@ -356,7 +357,66 @@ def behaviour_corpus(chk):
             pass
     for r in rules:
         clines.append(hx16(r) + ' ' + ','.join(hx16(x) for x in cats))
-    return {'pattern': (plines, lambda o: ' '.join((o.split(' ') + [''] * 5)[i] for i in (0, 1, 4))), 'category': (clines, lambda o: o)}
+    def canon_hb(o):
+        k, _, rest = o.partition(' ')
+        name, _, h = rest.partition(' ')
+        try:
+            v = bytes.fromhex(h).decode('utf-8', 'replace')
+        except ValueError:
+            v = h
+        if k == 'T':
+            v = re.sub(r'\d+', '#', re.sub(r'[0-9a-f]{32}', '<id>', v))
+        return name + ' ' + v
+    return {'pattern': (plines, lambda o: ' '.join((o.split(' ') + [''] * 5)[i] for i in (0, 1, 4))), 'category': (clines, lambda o: o),
+            'header_behaviour': (None, canon_hb)}
+
+
+USER_FLAGS = {'userflags': ['-O2', '-DQT_USE_QSTRINGBUILDER', '-DQT_NO_KEYWORDS', '-DQT_NO_CAST_TO_ASCII', '-DQT_STRICT_ITERATORS'],
+              'O0': ['-O0'], 'stringbuilder': ['-O2', '-DQT_USE_QSTRINGBUILDER']}
+
+
+def build_user_variant(name, tag):
+    """header-only build of a harness with flags a user project typically sets (cached on header, harness and flags)"""
+    src = os.path.join(vlib.VERIF, 'harness', 'h_%s.cpp' % name)
+    exe = os.path.join(vlib.BUILD, 'h_%s.hdr.%s' % (name, tag))
+    flags = USER_FLAGS[tag]
+    dg = vlib._digest([src, os.path.join(vlib.REPO, 'qtlogger.h')], ' '.join(flags) + vlib.REPO)
+    stamp = exe + '.digest'
+    if os.path.exists(exe) and os.path.exists(stamp) and open(stamp).read() == dg:
+        return exe, ''
+    libs = vlib.sh('pkg-config --libs Qt5Core')[1].split()
+    rc, so, se = vlib.sh(['g++', '-std=c++17', '-g', '-fPIC', '-w', '-DQTLOGGER_VERIF', '-DVERIF_HEADER_ONLY'] + flags + ['-I' + vlib.REPO] + qt_cflags()
+                         + ['-rdynamic', src, '-o', exe] + libs + ['-lpthread'], timeout=600)
+    if rc != 0:
+        return None, ([l for l in se.splitlines() if 'error' in l] or [se.strip()[:300]])[0][:300]
+    open(stamp, 'w').write(dg)
+    return exe, ''
+
+
+def same_name_internal_definitions():
+    """identifiers defined with internal linkage (anonymous namespace / static) in two or more library objects: each
+    library TU sees its own, the single amalgamated TU sees one of them (or an ambiguity) — an observation that turns
+    into a finding when the behaviour of the two builds differs"""
+    libdir = os.path.join(vlib.BUILD, 'lib')
+    where = {}
+    for d, _, fs in os.walk(libdir):
+        for f in fs:
+            if not f.endswith('.o') or f.startswith('moc_'):
+                continue
+            rc, so, se = vlib.sh(['nm', '-C', '--defined-only', os.path.join(d, f)], timeout=60)
+            for ln in so.splitlines():
+                m = re.match(r'[0-9a-f]* +([tdbr]) (.*)$', ln)
+                if not m:
+                    continue
+                nm_ = m.group(2)
+                plain = nm_.replace('(anonymous namespace)', 'ANON')
+                if any(x in plain for x in ('lambda', 'qstring_literal', '_GLOBAL_', 'guard variable', '__static_init', '.LC', 'typeinfo', 'vtable', '__func__',
+                                          '__PRETTY_FUNCTION__', ' const::', ')::')) or nm_.startswith(('.', '_Z', 'DW.')):
+                    continue
+                base = re.sub(r'\(.*$', '', plain).split('::')[-1].strip()
+                if re.fullmatch(r'[A-Za-z_]\w*', base):
+                    where.setdefault(base, {}).setdefault(os.path.join(d, f)[len(libdir) + 1:], nm_)
+    return {b: w for b, w in sorted(where.items()) if len(w) > 1}
 
 
 def build_variants(names):
@@ -378,8 +438,8 @@ def unhex16(h):
 
 
 def behaviour_leg(chk):
-    """header-only users get precisely the behaviour of the library build: the same harness built both ways must
-    print the same answers to the same inputs"""
+    """header-only users get precisely the behaviour of the library build: the same harness built both ways (and
+    header-only with the flags user projects typically set) must print the same answers to the same inputs"""
     corp = behaviour_corpus(chk)
     names = [n for n in corp if os.path.exists(os.path.join(vlib.VERIF, 'harness', 'h_%s.cpp' % n))]
     try:
@@ -388,36 +448,92 @@ def behaviour_leg(chk):
         chk.fail('a harness does not build header-only (or against the library): ' + str(e)[-400:],
                  {'kind': 'header-only-build-fails', 'log': str(e)[-1500:]}, kind='header-only-build-fails')
         return 0
+    thorough = chk.tier == 'thorough'
+    tags = ['userflags'] + (['O0', 'stringbuilder'] if thorough else [])
+    flagged = [(n, t) for t in tags for n in names if thorough or n in ('pattern', 'header_behaviour')]
+    with concurrent.futures.ThreadPoolExecutor(max_workers=4) as ex:
+        built = list(ex.map(lambda nt: build_user_variant(*nt), flagged))
+    variants = {n: [('header-only', exes[n][1])] for n in names}
+    notes = {}
+    for (n, t), (exe, err) in zip(flagged, built):
+        if exe:
+            variants[n].append(('header-only ' + ' '.join(USER_FLAGS[t]), exe))
+        else:
+            notes['h_%s %s' % (n, t)] = err
+            chk.broke('harness h_%s does not build header-only with %s: %s' % (n, ' '.join(USER_FLAGS[t]), err), {'kind': 'behaviour-build', 'error': err})
     n_cmp, n_diff = 0, 0
+
+    def run(exe, n, lines):
+        if lines is None:
+            d = tempfile.mkdtemp(prefix='c20_hb_')
+            try:
+                rc, so, se = vlib.sh([exe, d], timeout=120)
+                return so.splitlines(), se
+            finally:
+                shutil.rmtree(d, ignore_errors=True)
+        rc, o, e = vlib.run_lines(exe, lines, timeout=300)
+        return o, e
+    dups = None
     for n in names:
         lines, canon = corp[n]
-        rc1, o_lib, e1 = vlib.run_lines(exes[n][0], lines, timeout=300)
-        rc2, o_hdr, e2 = vlib.run_lines(exes[n][1], lines, timeout=300)
-        if len(o_lib) != len(lines) or len(o_hdr) != len(lines):
-            chk.broke('harness h_%s did not answer every input (library %d, header-only %d of %d)' % (n, len(o_lib), len(o_hdr), len(lines)),
-                      {'kind': 'behaviour-harness', 'harness': n, 'stderr': (e1 + e2)[-400:]})
-            continue
-        first = None
-        for l, a, b in zip(lines, o_lib, o_hdr):
-            n_cmp += 1
-            if canon(a) != canon(b):
-                n_diff += 1
-                first = first or (l, a, b)
-        if first:
-            l, a, b = first
-            fields = l.split(' ')
-            human = {'pattern': unhex16(fields[0]), 'message_type_enum': fields[1], 'message': unhex16(fields[2])} if n == 'pattern' else \
-                    {'rules': unhex16(fields[0]), 'categories': [unhex16(x) for x in fields[1].split(',')]}
-            shown = (lambda o: unhex16(o.split(' ')[0])) if n == 'pattern' else (lambda o: o)
-            chk.fail('the header-only build answers differently from the library build (h_%s): input %s: library %r, header-only %r'
-                     % (n, json.dumps(human, ensure_ascii=True), shown(a), shown(b)),
-                     {'kind': 'header-only-behaviour-differs', 'harness': 'h_' + n, 'input_line': l, 'input': human,
-                      'library_output': a, 'header_only_output': b, 'library_readable': shown(a), 'header_only_readable': shown(b),
-                      'how': 'echo <input_line> | build/h_%s ; echo <input_line> | build/h_%s.hdr' % (n, n)},
+        o_lib, e1 = run(exes[n][0], n, lines)
+        want = len(lines) if lines is not None else len(o_lib)
+        for label, exe in variants[n]:
+            o_hdr, e2 = run(exe, n, lines)
+            if len(o_lib) != want or len(o_hdr) != want or want == 0:
+                chk.broke('harness h_%s did not answer every input (library %d, %s %d of %d)' % (n, len(o_lib), label, len(o_hdr), want),
+                          {'kind': 'behaviour-harness', 'harness': n, 'stderr': (e1 + e2)[-400:]})
+                continue
+            first = None
+            for i, (a_, b_) in enumerate(zip(o_lib, o_hdr)):
+                n_cmp += 1
+                if canon(a_) != canon(b_):
+                    n_diff += 1
+                    first = first or (lines[i] if lines is not None else a_.split(' ')[1] if ' ' in a_ else '?', a_, b_)
+            if not first:
+                continue
+            l, a_, b_ = first
+            if n == 'pattern':
+                fields = l.split(' ')
+                human = {'pattern': unhex16(fields[0]), 'message_type_enum': fields[1], 'message': unhex16(fields[2])}
+                shown = lambda o: unhex16(o.split(' ')[0])
+            elif n == 'category':
+                fields = l.split(' ')
+                human = {'rules': unhex16(fields[0]), 'categories': [unhex16(x) for x in fields[1].split(',')]}
+                shown = lambda o: o
+            else:
+                human = {'probe': l, 'see': 'harness/h_header_behaviour.cpp'}
+                shown = lambda o: canon(o)
+            chk.fail('the %s build answers differently from the library build (h_%s): input %s: library %r, header-only %r'
+                     % (label, n, json.dumps(human, ensure_ascii=True), shown(a_), shown(b_)),
+                     {'kind': 'header-only-behaviour-differs', 'harness': 'h_' + n, 'build': label, 'input_line': l, 'input': human,
+                      'library_output': a_, 'header_only_output': b_, 'library_readable': shown(a_), 'header_only_readable': shown(b_),
+                      'how': 'build/h_%s vs %s on the same input' % (n, os.path.basename(exe))},
                      kind='header-only-behaviour-differs')
+    try:
+        dups = same_name_internal_definitions()
+    except Exception as e:
+        dups = {}
+    dups.pop('__ioinit', None)
+    # same base name in different scopes (e.g. ::x and QtLogger::(anonymous namespace)::x) first: those compile in one TU and
+    # silently change which one an unqualified use finds; identical full names come from a shared header and are harmless
+    ranked = sorted(dups, key=lambda k: (len(set(dups[k].values())) < 2, k))
+    dups = {k: dups[k] for k in ranked}
+    chk.cov['same_name_internal_definitions'] = {k: {'objects': sorted(v), 'different_scopes': len(set(v.values())) > 1} for k, v in list(dups.items())[:20]}
+    scoped = {k: v for k, v in dups.items() if len(set(v.values())) > 1}
+    if n_diff and scoped:
+        dups = scoped
+        k0 = next(iter(dups))
+        chk.fail('the library sources define the same identifier with internal linkage in several files (%s) and the header-only build behaves differently: '
+                 'in the single amalgamated translation unit an unqualified use finds another definition than in its own source file, e.g. %s in %s'
+                 % (', '.join(list(dups)[:6]), k0, sorted(dups[k0])),
+                 {'kind': 'same-name-internal-definitions', 'identifiers': {k: v for k, v in list(dups.items())[:10]}},
+                 kind='same-name-internal-definitions')
     chk.cov['behaviour_inputs_compared'] = n_cmp
     chk.cov['behaviour_differences'] = n_diff
-    chk.cov['behaviour_harnesses'] = ['h_' + n for n in names]
+    chk.cov['behaviour_harnesses'] = {'h_' + n: [lab for lab, _ in variants[n]] for n in names}
+    if notes:
+        chk.cov['behaviour_build_notes'] = notes
     return n_cmp
 
 
